@@ -122,6 +122,24 @@ def contract(rc, out, err):
     return f"abnormal-exit-{rc}"
 
 
+def inprocess_detail(path, d):
+    """The same input through the in-process pipeline (hooks on): what the harness says about the panic
+    (stage, message, hook counters) -- used to tell a recorded finding from a new panic."""
+    harness = os.path.join(BUILD, "harness-target", "release", "gram-verif-harness")
+    out = os.path.join(d, "inproc")
+    os.makedirs(out, exist_ok=True)
+    try:
+        subprocess.run([harness, "pipeline", "quick", "1", out], env=dict(os.environ, VERIF_ONLY_FILE=path, VERIF_ROOT=VERIF),
+                       stdout=subprocess.PIPE, stderr=subprocess.PIPE, timeout=60)
+        for line in open(os.path.join(out, "pipeline.hits"), errors="replace"):
+            parts = line.rstrip("\n").split("\t")
+            if len(parts) >= 4 and parts[0] == "C14":
+                return f"{parts[1]}: {parts[3][:300]}"
+    except Exception as ex:  # noqa: BLE001
+        return f"(not available: {ex})"
+    return "(no in-process hit)"
+
+
 def c14_step(tier, seed, rundir, log):
     hits, cov = [], {}
     ok, out = build_gram(log)
@@ -169,7 +187,10 @@ def c14_step(tier, seed, rundir, log):
                 # possibly divergent computation written in the program itself: not a violation
                 continue
             if bad:
-                hits.append({"property": "C14", "kind": f"cli-contract:{bad}", "input": repr(data), "detail": f"gram {mode}: exit {rc}, stdout {o[:200]!r}, stderr {e[:300]!r}", "suite": "cli"})
+                extra = ""
+                if b"panicked at" in e:
+                    extra = " in-process: " + inprocess_detail(path, d)
+                hits.append({"property": "C14", "kind": f"cli-contract:{bad}", "input": repr(data), "detail": f"gram {mode}: exit {rc}, stdout {o[:200]!r}, stderr {e[:300]!r}{extra}", "suite": "cli"})
             elif len(samples) < 4 and len(data) > 2:
                 samples.append(f"gram {mode} on {data[:40]!r}: exit {rc}, contract respected")
     # finite, non-divergent inputs whose nesting exhausts the 16 MiB stack (recorded finding KF-stack)
